@@ -62,7 +62,7 @@ VARIANTS = {
 }
 
 
-SETUP_VARIANTS = ["dbg", "idx", "safe", "idxsafe", "utf16", "nostd"]
+SETUP_VARIANTS = ["dbg", "idx", "safe", "idxsafe", "utf16", "nostd", "pattern", "asan", "miri"]
 
 
 class HarnessError(Exception):
@@ -170,7 +170,7 @@ def _limits(mem_gb):
 
 def run_one(binary, args, timeout, mem_gb, env=None, wrapper=None):
     """Run one runner process; returns (lines, returncode, stderr_tail, timed_out)."""
-    cmd = (wrapper or []) + [binary] + args
+    cmd = (wrapper or []) + ([binary] if binary else []) + args
     e = dict(os.environ)
     if env:
         e.update(env)
@@ -281,7 +281,10 @@ def run_shard(binary, check, tier, seed, shard, nshards, scale, opts, timeout, m
 
 
 def run_shards(variant, check, tier, seed, scale=1.0, opts=None, nshards=NCPU, timeout=3600, mem_gb=6, env=None, wrapper=None, crash_property="C06", binary=None, parallel=None):
-    binary = binary or os.path.join(BIN, "vrun-" + variant)
+    if binary is False:
+        binary = None
+    else:
+        binary = binary or os.path.join(BIN, "vrun-" + variant)
     out = Merged()
     t0 = time.time()
     parts = [Merged() for _ in range(nshards)]
@@ -519,6 +522,146 @@ def c01_extra(m):
 
 def c13_extra(m):
     return dict(programs_mentioning_nonascii=m.c("programs_mentioning_nonascii"), pairs_with_nonascii_pattern=m.c("pairs_with_nonascii_pattern"))
+
+
+MIRI_FEATURES = "hooks,re-std,re-pikevm"
+
+
+def miri_wrapper(features=MIRI_FEATURES):
+    return ["cargo", "+nightly", "miri", "run", "--manifest-path", os.path.join(HARNESS, "Cargo.toml"), "--target-dir", os.path.join(BUILD, "target-miri"), "--no-default-features", "--features", features, "--bin", "vrun", "--"]
+
+
+def miri_prepare(features=MIRI_FEATURES):
+    """Build the runner for Miri once (serially) so that the parallel runs only take the lock briefly."""
+    env = dict(os.environ)
+    env["CARGO_NET_OFFLINE"] = "true"
+    env.pop("RUSTFLAGS", None)
+    t0 = time.time()
+    p = subprocess.run(miri_wrapper(features) + ["nop"], cwd=HARNESS, env=env, stdout=subprocess.PIPE, stderr=subprocess.STDOUT, text=True)
+    if p.returncode != 0:
+        raise HarnessError("Miri build/run failed:\n%s" % "\n".join(p.stdout.splitlines()[-40:]))
+    log("miri runner ready in %.1fs" % (time.time() - t0))
+
+
+def run_miri(check, tier, seed, opts, nprocs=NCPU, timeout=3000, miriflags="", crash_property="C06"):
+    env = {"CARGO_NET_OFFLINE": "true", "MIRIFLAGS": miriflags}
+    return run_shards("miri", check, tier, seed, opts=opts, nshards=nprocs, timeout=timeout, mem_gb=None, env=env, wrapper=miri_wrapper(), crash_property=crash_property, binary=False)
+
+
+def tool_summary(name, m):
+    return dict(tool=name, cases=m.c("cases_run") or m.c("evaluations"), evaluations=m.c("evaluations"), programs=m.c("programs"), reports=len(m.crashes) + len(m.violations), wall_s=round(m.wall, 1), opcode_kinds_executed=len([k for k in m.counters if k.startswith("hook.bt.") or k.startswith("hook.pike.")]), backward_opcode_kinds=len([k for k in m.counters if k.startswith("hook.bt.bwd.")]), incomplete_shards=m.incomplete)
+
+
+def unsafe_entry_points(c):
+    """Which unchecked code paths the dynamic opcode profile proves were executed."""
+    has = lambda *ks: any(c.get(k, 0) > 0 for k in ks)
+    return {
+        "iat/mat get_unchecked (instruction fetch, group and loop tables)": has("hook.site.bt_insn"),
+        "Vec::set_len in pop_backtrack": has("hook.pop.SetPosition", "hook.pop.SetCaptureGroup"),
+        "RefPosition pointer arithmetic, forward decode (next_right)": has("hook.bt.fwd.Bracket", "hook.bt.fwd.CharSet", "hook.bt.fwd.MatchAny", "hook.bt.fwd.MatchAnyExceptLineTerminator", "hook.bt.fwd.Char"),
+        "backward UTF-8 decode (next_left) in lookbehind": has("hook.bt.bwd.Bracket", "hook.bt.bwd.CharSet", "hook.bt.bwd.MatchAny", "hook.bt.bwd.MatchAnyExceptLineTerminator", "hook.bt.bwd.Char"),
+        "from_raw_parts in subrange_eq (backreference)": has("hook.bt.fwd.BackRef", "hook.bt.bwd.BackRef"),
+        "case-insensitive backreference (subinput)": has("hook.bt.fwd.BackRefICase", "hook.bt.bwd.BackRefICase"),
+        "match_bytes literal compare, forward": has("hook.bt.fwd.ByteSeq1to4", "hook.bt.fwd.ByteSeq5to16"),
+        "match_bytes literal compare, backward": has("hook.bt.bwd.ByteSeq1to4", "hook.bt.bwd.ByteSeq5to16"),
+        "byte-set instructions on multi-byte text": has("hook.bt.fwd.ByteSet2", "hook.bt.fwd.ByteSet3", "hook.bt.fwd.ByteSet4", "hook.bt.fwd.AsciiBracket"),
+        "1-char loop backtracking via next_left_pos/next_right_pos": has("hook.pop.GreedyLoop1Char", "hook.pop.NonGreedyLoop1Char"),
+        "unreachable_unchecked-guarded dispatch (LoopAgain/EnterNonGreedyLoop)": has("hook.bt.fwd.LoopAgain", "hook.pop.EnterNonGreedyLoop"),
+        "word boundary peek at both ends": has("hook.bt.fwd.WordBoundary", "hook.bt.fwd.WordBoundaryUnicodeICase"),
+    }
+
+
+def check_c06(tier, seed, replay=None):
+    t0 = time.time()
+    pid = "C06"
+    build("dbg")
+    if replay:
+        return do_replay(pid, "dbg", "c06", replay)
+    merged = run_shards("dbg", "c06", tier, seed, timeout=3600)
+    tools = [tool_summary("native, crate debug assertions on (dbg)", merged)]
+    # AddressSanitizer
+    try:
+        build("asan")
+        asan_env = {"ASAN_OPTIONS": "halt_on_error=1:abort_on_error=1:detect_leaks=1:allocator_may_return_null=1"}
+        a = run_shards("asan", "c06", tier, seed, scale=(0.25 if tier == "quick" else 1.0), mem_gb=None, env=asan_env, timeout=3600)
+        tools.append(tool_summary("AddressSanitizer (nightly, -Zsanitizer=address)", a))
+        merged.merge(a)
+    except HarnessError as e:
+        merged.notes.append("ASan stage unavailable: %s" % str(e)[:300])
+        tools.append(dict(tool="AddressSanitizer", unavailable=str(e)[:300]))
+    # Miri
+    try:
+        miri_prepare()
+        per = 100 if tier == "quick" else 1200
+        mi = run_miri("c06", tier, seed, {"max_cases": per}, timeout=1500 if tier == "quick" else 14000)
+        tools.append(tool_summary("Miri (UB, out-of-bounds pointer arithmetic, provenance, uninitialised reads)", mi))
+        merged.merge(mi)
+    except HarnessError as e:
+        merged.notes.append("Miri stage unavailable: %s" % str(e)[:300])
+        tools.append(dict(tool="Miri", unavailable=str(e)[:300]))
+    # valgrind memcheck on the plain release build (thorough only)
+    if tier == "thorough":
+        try:
+            build("rel")
+            vg = run_shards("rel", "c06", tier, seed, opts={"max_cases": 4000}, mem_gb=None, wrapper=["valgrind", "-q", "--error-exitcode=97", "--leak-check=no"], timeout=7200)
+            tools.append(tool_summary("valgrind memcheck on the release build", vg))
+            merged.merge(vg)
+        except HarnessError as e:
+            merged.notes.append("valgrind stage unavailable: %s" % str(e)[:300])
+    rule = ("hostile workload for the default (unchecked, pointer-position) build: fixed corpus + small-scope enumeration + seeded structured random patterns (every 5th with no_opt), each on haystacks that put one character of every UTF-8 length (U+0000, 7F, 80, 7FF, 800, FFFF, 10000, 10FFFF, 2028) at both ends and adjacent, the empty haystack and random mixes; every char-boundary start plus len+1 and usize::MAX;"
+            " entry points: find_from, PikeVM, find_from_ascii and PikeVM-ASCII (ASCII haystacks only), replace/replace_all. Monitors: range monitor on every match and capture (then the haystack is sliced with them), caught panics incl. the crate's debug assertions, and the sanitizers listed under coverage.tools (a report kills the runner; the supervisor attributes it to the last announced program)."
+            " A case is (program, haystack, start, entry point); non-trivial iff it matched in a haystack with multi-byte characters. Every other check also passes all its matches through the same range monitor.")
+    extra = dict(tools=tools, unsafe_entry_points_reached=unsafe_entry_points(merged.counters), ranges_checked=merged.c("ranges_checked"))
+    return finish(pid, tier, seed, merged, rule, ASSUME_COMMON + ["a clean sanitizer run is not memory safety: red-zone tools miss in-bounds-of-another-object accesses, Miri sees only what it executes", "ASCII entry points are driven with ASCII text only (their documented domain); UTF-16/UCS-2 robustness is in C14"], extra_cov=extra, required=["ranges_checked", "hook.bt.bwd.ByteSeq1to4", "hook.pop.GreedyLoop1Char", "hook.pop.NonGreedyLoop1Char", "hook.bt.bwd.BackRefICase", "hook.bt.fwd.BackRef"], t0=t0)
+
+
+def check_c19(tier, seed, replay=None):
+    t0 = time.time()
+    pid = "C19"
+    try:
+        build("dbg")
+    except HarnessError as e:
+        # The harness asserts Regex/Match/Error: Send + Sync at compile time.
+        if "Send" in str(e) or "Sync" in str(e):
+            v = dict(property=pid, what="Regex, Match or Error is no longer Send + Sync (static assertion in the harness fails to compile)", case=dict(static_assertion="assert_send_sync"), observed=str(e)[-1500:], expected="auto traits hold")
+            path = write_replay(pid, v)
+            print("VIOLATION property=%s replay=%s" % (pid, path))
+            write_evidence(pid, tier, seed, dict(evaluations=1, distinct_nontrivial=0, rule="static auto-trait assertion", samples=[v["what"]]), ASSUME_COMMON, time.time() - t0, 1)
+            return 1
+        raise
+    if replay:
+        return do_replay(pid, "dbg", "c19", replay)
+    merged = run_shards("dbg", "c19", tier, seed, timeout=3600, nshards=10, crash_property="C19")
+    tools = [tool_summary("native threads (2/4/16 per group) with hook-injected yields", merged)]
+    try:
+        miri_prepare()
+        nseeds = 4 if tier == "quick" else 16
+        mi = run_miri("c19", tier, seed, {"small": 1, "queries": 6}, nprocs=10, timeout=2400 if tier == "quick" else 14000, miriflags="-Zmiri-many-seeds=0..%d" % nseeds, crash_property="C19")
+        ts = tool_summary("Miri data-race detector + weak-memory emulation, %d scheduler seeds per pattern" % nseeds, mi)
+        ts["miri_seeds"] = nseeds
+        tools.append(ts)
+        # -Zmiri-many-seeds runs the program once per seed: the S lines are repeated, keep the counters as a sum
+        merged.merge(mi)
+    except HarnessError as e:
+        merged.notes.append("Miri stage unavailable: %s" % str(e)[:300])
+        tools.append(dict(tool="Miri", unavailable=str(e)[:300]))
+    if tier == "thorough":
+        try:
+            build("tsan")
+            tsan_env = {"TSAN_OPTIONS": "halt_on_error=1:exitcode=66"}
+            reps = 0
+            for r in range(6):
+                t = run_shards("tsan", "c19", tier, seed + r, mem_gb=None, env=tsan_env, timeout=3600, nshards=10, crash_property="C19", opts={"queries": 400})
+                merged.merge(t)
+                reps += 1
+            tools.append(dict(tool="ThreadSanitizer (-Zsanitizer=thread -Zbuild-std)", repetitions=reps, reports=len([c for c in merged.crashes if c.get("returncode") == 66])))
+        except HarnessError as e:
+            merged.notes.append("TSan stage unavailable: %s" % str(e)[:300])
+            tools.append(dict(tool="ThreadSanitizer", unavailable=str(e)[:300]))
+    rule = ("static: the harness contains assert_send_sync::<Regex/Match/Error/Flags>() (a failing build is reported as a violation). Dynamic: 10 patterns x a multiset of queries (haystack, start, entry point, early iterator drop); the sequential specification is each query alone on a freshly compiled Regex; then (a) all queries in shuffled order on one Regex in one thread, (b) groups of 2, 4 and 16 threads sharing one Arc<Regex> plus per-thread clones, running shuffled overlapping subsets, including two live iterators advanced alternately, with the hook calling yield_now() every 1/3/7/50 engine steps; every result digest must equal the sequential one."
+            " The same workload (small) runs under Miri with several scheduler seeds and, in the thorough tier, under ThreadSanitizer. A case is one (pattern, query, thread group, thread); all are non-trivial.")
+    extra = dict(tools=tools, concurrent_queries=merged.c("concurrent_queries"), thread_groups=group_counters(merged.counters, "thread_groups."), thread_runs_with_injected_yields=merged.c("thread_runs_with_injected_yields"), static_send_sync_assertions=True)
+    return finish(pid, tier, seed, merged, rule, ASSUME_COMMON + ["holds by construction today (no interior mutability in CompiledRegex); this is a tripwire for a cache or scratch buffer added to the shared program"], extra_cov=extra, required=["concurrent_queries", "thread_groups.16", "static_send_sync_assertions"], t0=t0)
 
 
 C15_VARIANTS = ["dbg", "idx", "safe", "idxsafe", "utf16", "nostd"]
@@ -760,6 +903,8 @@ CHECKS = {
 
 
 CHECKS["C15"] = check_c15
+CHECKS["C06"] = check_c06
+CHECKS["C19"] = check_c19
 
 
 def main(argv):
